@@ -11,6 +11,7 @@ import hashlib
 import io
 import json
 import os
+import re
 import random
 import subprocess
 import sys
@@ -436,14 +437,65 @@ def seeds_for(tier):
 
 
 def shard(tasks, k):
-    """Split tasks into k shards of similar estimated cost (longest-processing-time-first)."""
+    """Split tasks into k shards of similar estimated cost (longest-processing-time-first); tasks that carry the
+    same "group" stay together (they are meant to meet in one interpreter)."""
+    units = {}
+    for n, t in enumerate(tasks):
+        units.setdefault(t.get("group", f"#{n}"), []).append(t)
     shards = [[] for _ in range(k)]
     load = [0.0] * k
-    for t in sorted(tasks, key=lambda t: -t.get("weight", 1)):
+    for u in sorted(units.values(), key=lambda u: -sum(t.get("weight", 1) for t in u)):
         m = load.index(min(load))
-        shards[m].append(t)
-        load[m] += t.get("weight", 1)
+        shards[m] += u
+        load[m] += sum(t.get("weight", 1) for t in u)
     return [s for s in shards if s]
+
+
+def make_pdb_twins(src, complete, stripped, numbers=(5, 30, 60)):
+    """Two copies of a PDB file in which a few residues carry a component name the reader cannot resolve ("XYP");
+    in `stripped` those residues have also lost their base atoms.  Same component name, complete in one file and
+    incomplete in the other - the two files are read in one interpreter, in both orders."""
+    a, b = [], []
+    with open(src) as f:
+        for line in f:
+            if line.startswith(("ATOM", "HETATM")) and line[22:26].strip().lstrip("-").isdigit() \
+                    and int(line[22:26]) in numbers:
+                line = line[:17] + "XYP" + line[20:]
+                name = line[12:16].strip()
+                a.append(line)
+                if not (BASE_LIKE.match(name) and name not in ("P", "OP1", "OP2", "OP3")):
+                    b.append(line)
+            else:
+                a.append(line)
+                b.append(line)
+    with open(complete, "w") as f:
+        f.writelines(a)
+    with open(stripped, "w") as f:
+        f.writelines(b)
+
+
+BASE_LIKE = re.compile(r"^[A-Z]+[0-9]*$")      # atom names without a prime: base atoms (and P)
+
+
+def strip_modified_bases(src, dst):
+    """Write a copy of an mmCIF file in which the HETATM nucleotides (modified residues) have lost their base
+    atoms: the same component names, but incomplete.  A reader that remembers a per-component answer from one
+    file and applies it to another shows here (the two files meet in one interpreter, in both orders)."""
+    cols, out, inloop = [], [], False
+    with open(src) as f:
+        for line in f:
+            if line.startswith("_atom_site."):
+                cols.append(line.strip().split(".", 1)[1])
+                out.append(line)
+                continue
+            if cols and line.startswith(("ATOM", "HETATM")):
+                tok = line.split()
+                name = tok[cols.index("label_atom_id")].strip('"')
+                if tok[0] == "HETATM" and BASE_LIKE.match(name) and name not in ("P", "OP1", "OP2", "OP3"):
+                    continue
+            out.append(line)
+    with open(dst, "w") as f:
+        f.writelines(out)
 
 
 def run_children(tasks, seeds, nshards, scratch, reps=2, timeout=1500):
@@ -457,7 +509,10 @@ def run_children(tasks, seeds, nshards, scratch, reps=2, timeout=1500):
             tag = f"s{s}-k{k}"
             wd = scratch.path("work-" + tag)
             os.makedirs(wd, exist_ok=True)
-            job = {"tasks": part, "reps": reps, "workdir": wd, "out": scratch.path(f"obs-{tag}.json")}
+            # every second seed meets its inputs in the opposite order (an answer must not depend on what the
+            # interpreter read before)
+            order = part if seeds.index(s) % 2 == 0 else list(reversed(part))
+            job = {"tasks": order, "reps": reps, "workdir": wd, "out": scratch.path(f"obs-{tag}.json")}
             jf = scratch.path(f"job-{tag}.json")
             with open(jf, "w") as f:
                 json.dump(job, f)
